@@ -58,6 +58,13 @@ StrIndex(s, c) == CHOOSE n \in 0..(Len(s) - 1) : s[n + 1] = c /\ \A m \in 0..(n 
 \* lst[n] = c on list(s), 0-based
 ListSet(lst, n, c) == [lst EXCEPT ![n + 1] = c]
 Count(s, c) == Cardinality({p \in 1..Len(s) : s[p] = c})
+\* s.translate(str.maketrans(from, to)): every character found in `from` is replaced by the character at
+\* the same position of `to` (the last position wins, as in the dict built by maketrans)
+StrTranslate(s, from, to) ==
+  [p \in 1..Len(s) |->
+     IF \E q \in 1..Len(from) : from[q] = s[p]
+     THEN to[CHOOSE q \in 1..Len(from) : from[q] = s[p] /\ \A r \in (q + 1)..Len(from) : from[r] # s[p]]
+     ELSE s[p]]
 
 -----------------------------------------------------------------------------
 (* Part 2: transcription *)
@@ -110,10 +117,9 @@ AlgStep(a) ==
             ELSE IF Cardinality(transpose_axis_as_set) > 1 THEN Raise(a, "several")
             ELSE [a EXCEPT !.pc = "swap", !.t = CHOOSE c \in transpose_axis_as_set : TRUE]
     [] a.pc = "swap" ->
-         LET sum_axis_number == StrIndex(a.l, a.s)
-             transpose_axis_number == StrIndex(a.l, a.t)
-             lefts_as_list == ListSet(ListSet(a.l, sum_axis_number, a.t), transpose_axis_number, a.s)
-         IN [a EXCEPT !.pc = "check", !.l = lefts_as_list]
+         \* lefts = lefts.translate(str.maketrans(sum_axis + transpose_axis, transpose_axis + sum_axis)):
+         \* EVERY occurrence of the two letters is swapped (a letter may be repeated: diagonal of the blocks)
+         [a EXCEPT !.pc = "check", !.l = StrTranslate(a.l, <<a.s, a.t>>, <<a.t, a.s>>)]
     [] a.pc = "check" ->
          LET transpose_axis_number == StrIndex(a.o, a.t)
              expected_results == ListSet(a.o, transpose_axis_number, a.s)
@@ -261,7 +267,10 @@ Accepts(b, x, o) ==
      /\ s # t /\ Count(b, s) >= 1 /\ Count(b, t) >= 1
      /\ Count(o, t) = 1 /\ Count(o, s) = 0
      /\ x = [p \in 1..Len(o) |-> IF o[p] = t THEN s ELSE o[p]]
-(* Known deviation class (observation O10): the summed or the transposed letter occurs more than once in
-   the blocks subscripts; only its first occurrence is swapped. *)
-Dev_RepeatedLetter(a) == a.ok /\ (Count(a.l, a.s) > 1 \/ Count(a.l, a.t) > 1)
+(* The class of observation O10: the summed or the transposed letter occurs more than once in the blocks
+   subscripts.  Before furax a5387e9 only the first occurrence was swapped (list assignments at the two
+   str.index positions) and the returned string was never the adjoint; the class is kept as a named
+   predicate so that the cases stay identifiable (RepeatedLetterIsAdjoint in MC_Dense, violation keys of
+   the replay). *)
+RepeatedLetter(a) == a.ok /\ (Count(a.l, a.s) > 1 \/ Count(a.l, a.t) > 1)
 =============================================================================
